@@ -6,6 +6,12 @@
 // (/verif/spec/net.spec): exactly one Reply/ReplyWithContext per call (C07).
 package handlers
 
+// GetUser returns fully populated AAA objects: the loader installs default deny handlers
+// for users without an authenticator / authorizer / accounter (checked where the loader is
+// under contract; assumed here).
+//@ interface cmds/server/handlers.configProvider.GetUser(c, user) (a)
+//@   ensures a != nil ==> a.Authenticate != nil && a.Authorizer != nil && a.Accounting != nil
+
 //@ func (s *Start) Handle(response tq.Response, request tq.Request)
 //@   implements tq.Handler.Handle
 //@   requires s != nil && s.loggerProvider != nil && s.configProvider != nil
